@@ -113,7 +113,7 @@ chk("C15", "vexplore+vfault",
     "Trusted: sqlite's atomic commit; only the sqlite flavour of the storage layer runs (no PostgreSQL here); outage = read timeout already elapsed + every statement fails (the device the repository's own tests use).",
     "DESIGN.md 3 C15", category="fault_enumeration")
 
-chk("C14", "vexplore",
+chk("C14", "vexplore+vsched",
     "explicit-state BFS with canonical-state deduplication over attempt/tick histories on the real handlers with a counting password backend and on the real TOTP verification, under the virtual clock, against reference models (token bucket; 2-second rule and lock-out)",
     "(a) for burst in {10,12} x rate in {1,2}/s: alphabet = login-form attempts for three users right/wrong, a basic-auth attempt on every route that a probe with a counting backend shows to reach the password backend (list in the evidence), a five-attempt burst, ticks of 400 ms / 1 s / 10 s; canonical state = bucket level; oracle on every attempt: cumulative backend invocations <= burst + rate x elapsed, an attempt the reference bucket refuses is answered 429 without lookup, at most one lookup per attempt, all entry points share one bucket. (b) alphabet = wrong guess, right guess, five wrong guesses 2 s apart, ticks 1 s / 2 s / 31 s / 1 h / 24 h; oracle: nothing is evaluated within 2 s of the previous evaluation, five consecutive evaluated failures within a minute start a lock-out during which a right code is refused, and the lock-out does not shrink from round to round (until a day without failures).",
     "Trusted: golang.org/x/time/rate is virtualised by the same rewrite. The concurrent clause (simultaneous attempts) is exercised with the controlled scheduler in C16's harness; limiter critical sections are atomic at its granularity.",
@@ -131,6 +131,30 @@ chk("C09", "venum+vsched",
     "Trusted: x/crypto/openpgp. A handler panic on a sealed instance is fail-closed and recorded, not a violation.",
     "DESIGN.md 3 C09")
 
+# what the three rounds of independently seeded changes added (see seeded/README.md)
+ADDENDA = {
+ "C01": " Added after seeding: multi-credential requests (7 primary credentials x every cookie shape, both cookie orders), role certificates from a loopback peer with forwarding headers, IP-restricted certificates issued by the operator's client CA and for netblocks not ending on an octet boundary, an unsorted multi-entry key deny list, and the decision product behind configuration FILES loaded with the real loadVerifyConfigFile.",
+ "C02": " Added after seeding: deployments with the user-name filter (names typed as name@Domain).",
+ "C03": " Added after seeding: IP-restricted certificates issued by the operator's own client CA (inside, aged, outside).",
+ "C04": " Added after seeding: a 14th consumer, the level upgrade reached under client-certificate authentication; history-dependent violations (state carried between requests) are confirmed by re-running their enumeration shard.",
+ "C05": " Added after seeding: requests carrying two session cookies of different users in either order, a next-step TOTP code, a primary store that answers reads but refuses writes; the canonical state records which code was spent.",
+ "C06": " Added after seeding: look-alike foreign origins (host.evil, evil-host, host@evil) as Origin and Referer, loopback-peer forwarding headers, non-octet netblocks, operator-CA IP certificates, unsorted deny list.",
+ "C07": " Added after seeding: second directory server down, case-twin accounts on every password entry point, disable_password_cache; the canonical state includes what the real rows say (subject, expiries, which candidate passwords the stored hash verifies).",
+ "C08": " Added after seeding: the canonical state of the admin-cache search includes the cache entry's real remaining lifetime.",
+ "C09": " Added after seeding: part (d), every subset and order of {own RSA CA key, own Ed25519 CA key, foreign key} pre-listed as known public keys.",
+ "C10": " Added after seeding: OpenSSH-certificate and sk-* blobs under re-tagged lines; every corrupted client-certificate address extension (C11 catalogue) signed by both trusted CAs on the certificate-taking routes.",
+ "C11": " Added after seeding: corrupted-extension handler probes under three certificate-method configurations.",
+ "C12": " Added after seeding: near-miss secrets (whitespace-only, trailing blank, one character short, case-folded).",
+ "C13": " Added after seeding: label-boundary host family, double-encoded path segments and encoded delimiters; the emitted Location must carry no parent-directory segment and no client-supplied query.",
+ "C14": " Added after seeding: part C14S (controlled scheduler, engine vsched): simultaneous TOTP and password guesses as threads, all interleavings with <= 2 (thorough 3) preemptions; part (c): configured burst/rate through a generated configuration file and the real loadVerifyConfigFile.",
+ "C15": " Added after seeding: outage ending inside the request (reads fail, writes succeed), fail-fast primary with the production read timeout, self-service bootstrap-OTP deployments with a recording mail sender.",
+ "C16": " Added after seeding: two unseal injections racing each other and a reader of the CA material.",
+ "C17": " Added after seeding: tails that force URL re-serialisation, 9 non-printable Unicode runes.",
+ "C18": " Added after seeding: authority of an absolute-form request line, Host header, sessions whose user name is the payload.",
+ "C19": " Added after seeding: an agent already holding foreign identities (one of an unparsable key type); leak detection over every key the client holds.",
+ "C20": " Added after seeding: differences between the real event loop and the recorder's functions are violations located in eventLoop.",
+}
+
 NOT_YET = {
 }
 
@@ -140,7 +164,8 @@ def main():
     for p in props:
         pid = p["id"]
         if pid in CHECKS:
-            c = CHECKS[pid]
+            c = dict(CHECKS[pid])
+            c["text"] = c["text"] + ADDENDA.get(pid, "")
             checks.append({
                 "property_id": pid,
                 "quick_cmd": f"bin/check {pid} quick",
